@@ -234,6 +234,47 @@ fn border_walks(args: &Args, rep: &mut Report) {
     }
 }
 
+thread_local! {
+    static SITE_CACHE: std::cell::RefCell<Option<((u64, u64), Tz, OpeningHours<TzLocation<Tz>>)>> = const { std::cell::RefCell::new(None) };
+}
+
+/// The per-day part of `check_site` for the every-day sweep: evaluation never panics, and below 60
+/// degrees the events are ordered and the schedule shows the local event times.
+fn check_site_day(lat: f64, lon: f64, date: NaiveDate) -> Result<(), String> {
+    let key = (lat.to_bits(), lon.to_bits());
+    let cached = SITE_CACHE.with(|c| c.borrow().as_ref().filter(|x| x.0 == key).map(|x| (x.1, x.2.clone())));
+    let (tz, oh) = match cached {
+        Some(x) => x,
+        None => {
+            let coords = Coordinates::new(lat, lon).ok_or_else(|| format!("valid pair ({lat}, {lon}) rejected"))?;
+            let ctx = guarded(|| Context::from_coords(coords)).map_err(|p| format!("Context::from_coords({lat}, {lon}) panicked: {p}"))?;
+            let tz = *ctx.locale.get_timezone();
+            let oh = OpeningHours::parse("sunrise-sunset").unwrap().with_context(ctx);
+            SITE_CACHE.with(|c| *c.borrow_mut() = Some((key, tz, oh.clone())));
+            (tz, oh)
+        }
+    };
+    let coords = Coordinates::new(lat, lon).unwrap();
+    let sched: Vec<(u16, u16, RuleKind)> = guarded(|| oh.schedule_at(date).into_iter().map(|t| (t.range.start.mins_from_midnight(), t.range.end.mins_from_midnight(), t.kind)).collect()).map_err(|p| format!("schedule_at({date}) at ({lat}, {lon}) [{tz}] panicked: {p}"))?;
+    if lat.abs() > 60.0 {
+        return Ok(());
+    }
+    let ev = |e: TimeEvent| -> Result<DateTime<Utc>, String> { guarded(|| coords.event_time(date, e)).map_err(|p| format!("event_time({date}, {e:?}) at ({lat}, {lon}) panicked: {p}")) };
+    let (dawn, sunrise, sunset, dusk) = (ev(TimeEvent::Dawn)?, ev(TimeEvent::Sunrise)?, ev(TimeEvent::Sunset)?, ev(TimeEvent::Dusk)?);
+    if !(dawn < sunrise && sunrise < sunset && sunset < dusk) {
+        return Err(format!("at ({lat}, {lon}) on {date}: dawn {dawn}, sunrise {sunrise}, sunset {sunset}, dusk {dusk} are not strictly increasing"));
+    }
+    let local = |t: DateTime<Utc>| t.with_timezone(&tz).naive_local();
+    let (l_rise, l_set) = (local(sunrise), local(sunset));
+    if l_rise.date() == date && l_set.date() == date {
+        let m = |t: NaiveDateTime| (t.hour() * 60 + t.minute()) as u16;
+        if !sched.iter().any(|r| r.2 == RuleKind::Open && r.0 == m(l_rise) && r.1 == m(l_set)) {
+            return Err(format!("'sunrise-sunset' at ({lat}, {lon}) [{tz}] on {date}: schedule {sched:?} (minutes), local sunrise {l_rise} sunset {l_set}"));
+        }
+    }
+    Ok(())
+}
+
 pub struct Site {
     pub lat: f64,
     pub lon: f64,
@@ -398,6 +439,56 @@ pub fn run(args: &Args, rep: &mut Report) {
     border_walks(args, rep);
     if rep.full() {
         return;
+    }
+    // every day 1900..2100 at fixed sites: the 40 cities (quick and thorough) and, in the thorough
+    // tier, every node of the 5-degree grid up to 60 degrees - coincidences between an event time
+    // and a clock boundary (an event at exactly 00:00:00 local) need the right day at the right place
+    {
+        let mut sites: Vec<(f64, f64)> = CITIES.iter().map(|c| (c.1, c.2)).collect();
+        if args.thorough() {
+            let mut lat = -60.0;
+            while lat <= 60.0 {
+                let mut lon = -180.0;
+                while lon < 180.0 {
+                    sites.push((lat, lon));
+                    lon += 5.0;
+                }
+                lat += 5.0;
+            }
+        } else {
+            // quick: the grid rows nearest to the polar circles as well, on a stride of 10 degrees
+            for lat in [-60.0, -55.0, 55.0, 60.0] {
+                let mut lon = -180.0 + (args.seed % 10) as f64;
+                while lon < 180.0 {
+                    sites.push((lat, lon));
+                    lon += 10.0;
+                }
+            }
+        }
+        let mut idx = 0u64;
+        'sites: for (lat, lon) in sites {
+            // years sharded over the workers, so that every site's cost is spread
+            for y in 1900..=2100 {
+                idx += 1;
+                if (idx - 1) % args.of.max(1) != args.worker {
+                    continue;
+                }
+                let mut d = NaiveDate::from_ymd_opt(y, 1, 1).unwrap();
+                rep.begin(&format!("every-day sweep ({lat}, {lon}) {y}"));
+                while d.year() == y {
+                    rep.count("site_days_swept");
+                    if let Err(msg) = check_site_day(lat, lon, d) {
+                        rep.violation("sun_events", format!("{msg} (every-day sweep at fixed sites)"), json!({"lat": lat, "lon": lon, "date": d.to_string()}), None);
+                        if rep.full() {
+                            break 'sites;
+                        }
+                        break;
+                    }
+                    d = d.succ_opt().unwrap();
+                }
+            }
+        }
+        rep.evaluations += 1;
     }
     // Exhaustive over dates: the defaults on EVERY day of the supported range (years sharded)
     {
